@@ -5,6 +5,7 @@ import (
 	"fmt"
 	"math/big"
 	"reflect"
+	"runtime"
 	"sort"
 	"sync"
 
@@ -92,6 +93,38 @@ func valueJob(codec datacodec.Codec, name string, v interface{}, version primiti
 			return fmt.Sprintf("%d bytes | %v %s", len(enc), wasNull, canonValue(reflect.ValueOf(out)))
 		}
 		return fmt.Sprintf("%x | %v %s", enc, wasNull, canonValue(reflect.ValueOf(out)))
+	}}
+}
+
+// slowWriter copies what it is given in small pieces, yielding in between: a destination like a pipe or a socket, during whose
+// Write the codec's caller is still reading the codec's output buffer
+type slowWriter struct{ buf bytes.Buffer }
+
+func (w *slowWriter) Write(p []byte) (int, error) {
+	for i := 0; i < len(p); i += 64 {
+		j := i + 64
+		if j > len(p) {
+			j = len(p)
+		}
+		w.buf.Write(p[i:j])
+		runtime.Gosched()
+	}
+	return len(p), nil
+}
+
+// rawLz4Job: Compress / Decompress (the segment payload format) into a slow destination
+func rawLz4Job(in []byte) c18Job {
+	return c18Job{descr: fmt.Sprintf("lz4-raw %d bytes", len(in)), run: func() string {
+		c := lz4.Compressor{}
+		var z bytes.Buffer
+		if err := c.Compress(bytes.NewReader(in), &z); err != nil {
+			return "compress-err " + firstWords(err.Error())
+		}
+		out := &slowWriter{}
+		if err := c.Decompress(bytes.NewReader(z.Bytes()), out); err != nil {
+			return "decompress-err " + firstWords(err.Error())
+		}
+		return fmt.Sprintf("%x | %v", z.Bytes(), bytes.Equal(out.buf.Bytes(), in))
 	}}
 }
 
@@ -192,6 +225,7 @@ func runC18(res *lp.Result) {
 					jobs[g] = append(jobs[g], valueJob(datacodec.Decimal, "decimal", datacodec.CqlDecimal{Unscaled: big.NewInt(int64(r.U64())), Scale: int32(r.Intn(40))}, ver))
 				case 8:
 					jobs[g] = append(jobs[g], compressJob("lz4", lz4.Compressor{}, bytes.Repeat(r.Bytes(7), r.Intn(3000))))
+					jobs[g] = append(jobs[g], rawLz4Job(bytes.Repeat(r.Bytes(5), 200+r.Intn(3000))))
 				case 9:
 					jobs[g] = append(jobs[g], compressJob("snappy", snappy.Compressor{}, bytes.Repeat(r.Bytes(5), r.Intn(3000))))
 				}
